@@ -157,7 +157,7 @@ def flags(a, prefix):
     return sorted(x[len(prefix):] if x.startswith(prefix) else x for x in a.split("|"))
 
 
-def parse_trace(text, root, srcdir, lockdir, sharedir=None):
+def parse_trace(text, root, srcdir, lockdir, sharedir=None, flipdir=None):
     """events of the mount block of one launch (everything before execve, minus the work-dir chdir)"""
     ev, done, failed_parse = [], False, []
 
@@ -171,7 +171,7 @@ def parse_trace(text, root, srcdir, lockdir, sharedir=None):
         return "rel", [c for c in p.split("/") if c]
 
     def src(p):
-        for d in (srcdir, lockdir, sharedir):
+        for d in (srcdir, lockdir, sharedir, flipdir):
             if d and p.startswith(d + "/"):
                 return p[len(d) + 1:]
         return p
@@ -258,7 +258,7 @@ def run_driver(ctx, cases, tag, strace):
             m = pat.search(txt)
             if m:
                 texts[int(m.group(1))] = txt
-    left = [x for x in os.listdir(work) if x not in ("locked", "shared")]
+    left = [x for x in os.listdir(work) if x not in ("locked", "shared", "flip")]
     if left:
         ctx.note("driver left %d case directories behind" % len(left))
     return obs, texts
@@ -273,9 +273,9 @@ def build_traces(ctx, fobs, texts):
         if o is None:
             continue
         ev, done = parse_trace(texts[cid], "%s/c%d/root" % (work, cid), "%s/c%d/src" % (work, cid),
-                               "%s/locked/c%d" % (work, cid), "%s/shared/c%d" % (work, cid))
+                               "%s/locked/c%d" % (work, cid), "%s/shared/c%d" % (work, cid), "%s/flip/c%d" % (work, cid))
         traces.append(dict(case=o["case"], srcfl=o["srcfl"], lockfl=o["lockfl"], sharefl=o["sharefl"],
-                           srcshared=o["srcshared"], done=done, ev=ev))
+                           srcshared=o["srcshared"], flipfl=o["flipfl"], done=done, ev=ev))
     return traces
 
 
@@ -442,6 +442,7 @@ def run_body(ctx, bg):
         "path resolution model: the last mount whose mount point is a prefix of the path serves it (no moves, no partial unmounts); validated against /proc/<pid>/mountinfo of every sandbox",
         "/proc/<pid>/mountinfo lists mounts in creation order (kernel >= 6.8, here 6.18); on older kernels the table comparison would show up as DRIFT / inconclusive, never as a violation",
         "propagation: the driver runs in its own mount namespace (unshare -m --propagation private) and makes one tmpfs shared; sources of the 'bdros' kind live there and the driver mounts a tmpfs with a marker on <source>/dyn from the sync callback (sandbox set up, program about to be exec'd); all other host mounts are private here, so only that kind can show propagation",
+        "source state: sources of the 'bdrof' kind live on a per-case tmpfs that the driver keeps read-only (bind remount) while Builder.FilterNotExist/Build run and makes writable before the sandbox runs: the mount table is built once from host state that later changes",
         "the sandboxed program has no capabilities (runner/unshare and the container both drop them), so remount attempts are expected to fail with EPERM",
         "a launch that fails inside the mount block on a table the model can build is counted as a breach (the configured mounts are not provided); failures elsewhere are inconclusive",
         "container: link/mask/devnull options explored as 4 combinations (all 8 in the model); network and ipc namespaces are not unshared by the driver",
